@@ -161,7 +161,9 @@ def run_condensed(doc, log):
     if d > 50 * conv_tol(doc, pj_scale) + 1e-9:
         raise Violation(PROP, "condensed-vs-explicit", f"cell pressures differ from the explicit formulation by {d:.3e} (scale {pj_scale:.2e}, bulk {bulk})", site="SolidBodyNearlyIncompressible.p", fault=fkd)
     d = float(np.abs(st.J - J2).max())
-    if d > 50 * conv_tol(doc, 1.0) / max(1.0, bulk / 100) + 1e-9:
+    # J = 1 + p / bulk in both formulations: the tolerance of J is that of p divided by bulk
+    tolJ = 2 * (50 * conv_tol(doc, pj_scale) + 1e-9) / bulk + 1e-8
+    if d > tolJ:
         raise Violation(PROP, "condensed-vs-explicit", f"cell volume ratios differ from the explicit formulation by {d:.3e} (bulk {bulk})", site="SolidBodyNearlyIncompressible.J", fault=fkd)
     log.count("condensed-vs-explicit-compared")
     # a body re-created on the converged displacement field (restart from saved displacements,
@@ -175,7 +177,7 @@ def run_condensed(doc, log):
     if d > 50 * conv_tol(doc, pj_scale) + 1e-9:
         raise Violation(PROP, "condensed-vs-explicit", f"a body created on the converged displacement field carries cell pressures that differ from the explicit formulation by {d:.3e} (scale {pj_scale:.2e})", site="SolidBodyNearlyIncompressible.recreated.p", fault=fkd)
     d = float(np.abs(fresh.results.state.J - J2).max())
-    if d > 50 * conv_tol(doc, 1.0) / max(1.0, bulk / 100) + 1e-9:
+    if d > tolJ:
         raise Violation(PROP, "condensed-vs-explicit", f"a body created on the converged displacement field carries volume ratios that differ from the explicit formulation by {d:.3e}", site="SolidBodyNearlyIncompressible.recreated.J", fault=fkd)
     Kf = fresh.assemble.matrix().toarray()
     w.items[0].assemble.vector(field=w.items[0].field)
@@ -250,6 +252,10 @@ def restart_with_state_drop(doc, eng, ra, log):
         ua = a.x[0].values
         scale = max(float(np.abs(b["x"][0]).max()), 0.05)
         d = float(np.abs(ua - b["x"][0]).max())
+        if d > 0.05 * float(np.max(doc["mesh"]["b"])):
+            # a different equilibrium branch (the restart starts with p = 0): the problem has more
+            # than one solution, which the property does not exclude
+            raise Discard("restart-found-another-equilibrium")
         if d > conv_tol(doc, scale):
             raise Violation(PROP, "restart-equivalence", f"substep {ra+1+n}: a world rebuilt without the condensed (p, J) state converges to a different field (diff {d:.3e})", site="SolidBodyNearlyIncompressible.state")
 
@@ -276,6 +282,11 @@ def run_uniform(doc, log):
     log2 = EventLog()
     w2, eng2, exc2 = run_history(d2, log2, [rec2])
     if (exc1 is None) != (exc2 is None):
+        if isinstance(exc1 or exc2, ValueError):
+            # borderline convergence: rounding differences decide whether maxiter is reached
+            n1, n2 = len(eng1.callbacks), len(eng2.callbacks)
+            if abs(n1 - n2) <= 1:
+                raise Discard("borderline-convergence")
         raise Violation(PROP, "uniform-knob", f"general region: {type(exc1).__name__ if exc1 else 'converged'}, uniform-grid region: {type(exc2).__name__ if exc2 else 'converged'}", site="Region.uniform")
     if w2.region.dV.shape[-1] != 1:
         raise Violation(PROP, "uniform-knob", "uniform=True did not select the uniform-grid path", site="Region.uniform")
